@@ -40,6 +40,14 @@ CHECKS = {
         design_ref="DESIGN.md §4 C03",
         note="DROP of an unwired table and tag/self-loop inheritance on RENAME are relational (either outcome accepted); facts come from the statement tap.",
     ),
+    "C07": dict(
+        technique="metamorphic monitor: token-level layout/comment/case/quoting rewrites driven by sqlfluff's lexer+parser, original vs rewritten run through the real package",
+        category="exploration",
+        text="Each corpus/TPC-DS statement is rewritten (whitespace, block/line comments containing ; and quotes, comment insertion next to , ( ), upper/lower/swap/mixed case, "
+             "identifier quoting, trailing semicolons, combinations; every single boundary in thorough) and tables, table edges and named column pairs must not change.",
+        design_ref="DESIGN.md §4 C07",
+        note="A rewritten text that the dialect's own sqlfluff parser rejects is counted, not judged; a quoted token must still parse as an identifier; expression-named columns are compared modulo layout/case/quotes.",
+    ),
     "C10": dict(
         technique="invariant monitor on the outcome of every execution over a hostile mutation workload + independent parse oracle + silent-mode differential monitor",
         category="exploration",
